@@ -111,23 +111,34 @@ func (demuxer *Demuxer) process() {
 			continue
 		}
 
-		packet := p.(*Packet)
-		var err error
-		switch packet.Channel {
-		case ChannelVideo:
-			err = demuxer.vdp.Depacketize(packet)
-		case ChannelVideoControl:
-			err = demuxer.vdp.Control(packet)
-		case ChannelAudio:
-			err = demuxer.adp.Depacketize(packet)
-		case ChannelAudioControl:
-			err = demuxer.adp.Control(packet)
-		}
+		demuxer.processPacket(p.(*Packet))
+	}
+}
 
-		if err != nil {
-			demuxer.logger.Errorf("rtp demuxer: depackeetize rtp frame error :%s", err.Error())
-			// break
+// processPacket 处理一个包；一个畸形包引起的 panic 只丢弃这一个包，
+// 不能让转换 routine 退出(否则该流之后的 FLV/HLS 输出全部中断)
+func (demuxer *Demuxer) processPacket(packet *Packet) {
+	defer func() {
+		if r := recover(); r != nil {
+			demuxer.logger.Errorf("FrameConverter routine panic；r = %v \n %s", r, debug.Stack())
 		}
+	}()
+
+	var err error
+	switch packet.Channel {
+	case ChannelVideo:
+		err = demuxer.vdp.Depacketize(packet)
+	case ChannelVideoControl:
+		err = demuxer.vdp.Control(packet)
+	case ChannelAudio:
+		err = demuxer.adp.Depacketize(packet)
+	case ChannelAudioControl:
+		err = demuxer.adp.Control(packet)
+	}
+
+	if err != nil {
+		demuxer.logger.Errorf("rtp demuxer: depackeetize rtp frame error :%s", err.Error())
+		// break
 	}
 }
 
